@@ -331,7 +331,8 @@ class Check:
             raise RuntimeError(f'no table entry for {key}')
         log = K.EventLog()
         viol = []
-        trigger = f"e0={scn['e0_deg']:g}"
+        # 'unbudgeted': the repaired tree itself does not settle within the calibration cap in this cell (known findings)
+        trigger = f"e0={scn['e0_deg']:g}|dt={scn['dt']:g}|{'budgeted' if ent.get('status') == 'ok' else 'unbudgeted'}"
 
         def v(symptom, step, detail):
             return {'component': f"{scn['kind']}", 'symptom': symptom, 'trigger': trigger, 'step': step, 'detail': detail}
